@@ -1019,6 +1019,10 @@ func (e *kvElection) validateToken(ctx context.Context) (bool, error) {
 	resultChan := make(chan getResult, 1)
 
 	go func() {
+		if ctx.Err() != nil {
+			resultChan <- getResult{err: ctx.Err()}
+			return
+		}
 		entry, err := e.kv.Get(e.key)
 		resultChan <- getResult{entry: entry, err: err}
 	}()
